@@ -55,6 +55,24 @@ def _pool(ts: List[int], st: List[int]):
     ]
 
 
+def _pool2(ts: List[int], st: List[int]):
+    """two attempts of one launch, one run each (same launch id, attempts 1 and 2)."""
+    spec = {"version": 1, "nodes": [{"node_uuid": "n1"}], "edges": []}
+    return [
+        {"record_type": "run_space_start", "run_id": "L", "run_space_launch_id": "L", "run_space_attempt": 1, "run_space_planned_run_count": 1, "timestamp": ts[0]},
+        {"record_type": "pipeline_start", "run_id": "R1", "pipeline_id": "P", "pipeline_spec_canonical": spec, "meta": {}, "timestamp": ts[1], "run_space_launch_id": "L", "run_space_attempt": 1},
+        {"record_type": "run_space_end", "run_id": "L", "run_space_launch_id": "L", "run_space_attempt": 1, "timestamp": ts[2]},
+        {"record_type": "run_space_start", "run_id": "L", "run_space_launch_id": "L", "run_space_attempt": 2, "run_space_planned_run_count": 1, "timestamp": ts[3]},
+        {"record_type": "pipeline_start", "run_id": "R2", "pipeline_id": "P", "pipeline_spec_canonical": spec, "meta": {}, "timestamp": ts[4], "run_space_launch_id": "L", "run_space_attempt": 2},
+        {"record_type": "run_space_end", "run_id": "L", "run_space_launch_id": "L", "run_space_attempt": 2, "timestamp": ts[5]},
+        {"record_type": "pipeline_end", "run_id": "R1", "summary": {"status": "ok"}, "timestamp": ts[6]},
+        {"record_type": "ser", "identity": {"run_id": "R2", "pipeline_id": "P", "node_id": "n1"}, "status": STATUSES[st[0]], "timing": {"started_at": ts[6], "finished_at": ts[7]}, "timestamp": ts[7], "seq": 1},
+    ]
+
+
+POOLS = {"2runs": _pool, "2attempts": _pool2}
+
+
 def _state(agg):
     runs = {k: dataclasses.asdict(v) for k, v in agg._runs.items()}
     launches = {k: dataclasses.asdict(v) for k, v in agg._launches.items()}
@@ -76,6 +94,7 @@ def _make_o1(param):
        param = (i1, i2, None)       -> timestamps symbolic too (thorough; restricted pre-state)."""
     i1, i2, tsv = param[:3]
     full = len(param) > 3 and param[3]
+    pool_name = param[4] if len(param) > 4 else "2runs"
     if tsv is not None:
 
         def o1(m0: bool, m1: bool, m2: bool, m3: bool, m4: bool, m5: bool, m6: bool, m7: bool, s0: int, s1: int, poll_pre: bool, poll_a: bool, poll_b: bool):
@@ -93,7 +112,7 @@ def _make_o1(param):
             c1 = next(i for i in range(3) if s1 == i)
             pp, pa, pb = (True if poll_pre else False), (True if poll_a else False), (True if poll_b else False)
             with NoTracing():
-                return _o1_body(i1, i2, cm, TS_VARIANTS[tsv], [c0, c1], pp, pa, pb)
+                return _o1_body(i1, i2, cm, TS_VARIANTS[tsv], [c0, c1], pp, pa, pb, pool_name)
 
         return o1
 
@@ -108,10 +127,10 @@ def _make_o1(param):
     return o1s
 
 
-def _o1_body(i1, i2, mask, ts, st, poll_pre, poll_a, poll_b):
+def _o1_body(i1, i2, mask, ts, st, poll_pre, poll_a, poll_b, pool_name="2runs"):
     from semantiva.trace.aggregation.aggregator import TraceAggregator
 
-    pool = _pool(ts, st)
+    pool = POOLS[pool_name](ts, st)
     pre = [r for i, r in enumerate(pool) if i not in (i1, i2) and (mask >> i) & 1]
     outs = []
     for order, poll in (((i1, i2), poll_a), ((i2, i1), poll_b)):
@@ -150,7 +169,7 @@ def _replay_o1(param, a):
     i1, i2, tsv = param[:3]
     if tsv is not None:
         mask = sum((1 << k) for k in range(8) if a["m%d" % k])
-        v = _o1_body(i1, i2, mask, TS_VARIANTS[tsv], [a["s0"], a["s1"]], a["poll_pre"], a["poll_a"], a["poll_b"])
+        v = _o1_body(i1, i2, mask, TS_VARIANTS[tsv], [a["s0"], a["s1"]], a["poll_pre"], a["poll_a"], a["poll_b"], param[4] if len(param) > 4 else "2runs")
     else:
         v = _o1_body(i1, i2, a["mask"], [a["t0"], a["t1"], a["t2"], a["t3"], a["t4"], a["t5"], a["t5"], a["t5"]], [a["s0"], 0], a["poll_pre"], a["poll_a"], a["poll_b"])
     return _wrap(v)
@@ -313,9 +332,11 @@ def obligations(tier: str) -> List[Ob]:
         params += [(i, j, None) for (i, j) in itertools.combinations(range(5), 2)]
     else:
         params = [(i, j, v, False) for (i, j) in pairs for v in ("increasing", "ties")]
+    # a second pool: two attempts of one launch (8 records as well)
+    params += [(i, j, "increasing", False, "2attempts") for (i, j) in pairs]
     return [
         Ob("C13.O1", _make_o1, _replay_o1, params=params, budget=900, per_path=60,
-           bound="28 unordered pairs of pool records x timestamp layouts (quick: increasing, ties; thorough: + all equal) x pre-state = symbolic subset of the other 6 records x symbolic SER status of node 1 (thorough: both nodes) over {succeeded,error,running} x 3 poll flags (finalize_all before / between, independently for both orders): selectors symbolic, leaves executed natively; thorough adds the 10 pairs among the first 5 records with SYMBOLIC non-decreasing timestamps in 1..3 (traced). Full state (pure ingestion) + verdicts compared; finalize twice",
+           bound="two pools of 8 records (a launch with two runs; two attempts of one launch with one run each): 28 unordered pairs of pool records x timestamp layouts (quick: increasing, ties; thorough: + all equal) x pre-state = symbolic subset of the other 6 records x symbolic SER status of node 1 (thorough: both nodes) over {succeeded,error,running} x 3 poll flags (finalize_all before / between, independently for both orders): selectors symbolic, leaves executed natively; thorough adds the 10 pairs among the first 5 records with SYMBOLIC non-decreasing timestamps in 1..3 (traced). Full state (pure ingestion) + verdicts compared; finalize twice",
            targets=["semantiva/trace/aggregation/aggregator.py:TraceAggregator.ingest", "semantiva/trace/aggregation/aggregator.py:TraceAggregator.finalize_run", "semantiva/trace/aggregation/aggregator.py:TraceAggregator.finalize_launch", "semantiva/trace/aggregation/aggregator.py:TraceAggregator.finalize_all"]),
         Ob("C13.O3", _make_o3, _replay_o3, params=[("run", 1), ("run", 2), ("run", 3), ("launch",)], budget=300,
            bound="traces written by the real runtime (JSONL driver): runs of 1..3 nodes failing at a symbolic node or not; a 2-run launch through the real CLI with the second run failing or not; prefix length symbolic over every cut point",
